@@ -9,6 +9,7 @@ import (
 	"github.com/emitter-io/emitter/internal/message"
 	"github.com/emitter-io/emitter/internal/provider/storage"
 	"github.com/emitter-io/emitter/internal/service/cluster"
+	"github.com/emitter-io/emitter/internal/service/presence"
 )
 
 // VerifAttach hands an in-memory connection to the broker as an accepted client connection.
@@ -35,3 +36,6 @@ func (s *Service) VerifAttachConn(c net.Conn) (luid uint64, id string) {
 	go conn.Process()
 	return uint64(conn.LocalID()), conn.ID()
 }
+
+// VerifPresence exposes the presence service (a survey handler).
+func (s *Service) VerifPresence() *presence.Service { return s.presence }
